@@ -8,6 +8,6 @@ git -C /repo apply $P || { echo "apply failed"; exit 2; }
 for id in "$@"; do
   VERIF_NO_EVIDENCE=1 timeout 3000 ./check $id --tier quick > /tmp/seedcheck_$id.log 2>&1; rc=$?
   nv=$(grep -c "^VIOLATION" /tmp/seedcheck_$id.log)
-  echo "CHECK $id rc=$rc violations=$nv :: $(grep -m1 '^VIOLATION' /tmp/seedcheck_$id.log) :: $(tail -1 /tmp/seedcheck_$id.log | cut -c1-160)"
+  echo "CHECK $id rc=$rc violations=$nv :: $(grep -m1 '^VIOLATION' /tmp/seedcheck_$id.log) :: $(tail -1 /tmp/seedcheck_$id.log | cut -c1-160) :: $(grep -m1 '^   ' /tmp/seedcheck_$id.log | cut -c1-300)"
 done
 git -C /repo checkout -- . ; git -C /repo status --short | head -3
